@@ -87,10 +87,12 @@ def check_case(case):
 
 
 def draw_delims(ch, icvn):
-    pool = PUNCT
+    # the standard characters may also swap roles (e.g. ':' as element and '*' as component separator)
+    pool = PUNCT + ['*', ':', '~', '^']
     term = ch.choice(pool + CTRL[:2] + ['\n'])
     ele = ch.choice([c for c in pool + CTRL[2:] if c != term])
-    sub = ch.choice([c for c in pool if c not in (term, ele)])
+    # the component separator is data of ISA16: it must belong to the character set of the interchange version
+    sub = ch.choice([c for c in pool if c not in (term, ele) and not (c == '^' and icvn == '00401')])
     rep = ch.choice([c for c in pool if c not in (term, ele, sub)])
     return term, ele, sub, rep
 
